@@ -39,6 +39,7 @@ type maskResult struct {
 	Lab       string   `json:"lab,omitempty"`
 	DataOK    bool     `json:"dataOk"`
 	Events    []vEvent `json:"events,omitempty"`
+	Sess      any      `json:"sess,omitempty"` // C01: *c01Session, outputs of both sides (VERIF_ESTABLISHED)
 }
 
 func maskPolicy(cm, sm []int, interval time.Duration, n *labNet) func(d *labDgram) labAction {
@@ -143,6 +144,9 @@ func runMaskCase(idx int, mc *maskCase, budget time.Duration) maskResult { //nol
 		r.net.auto = func(*labDgram) labAction { return labAction{deliver: 1} }
 		r.net.mu.Unlock()
 		res.DataOK = pingPong(r)
+		if c01Wanted() {
+			res.Sess = c01Collect(r)
+		}
 	}
 	if mc.Events || !res.Completed {
 		res.Events = r.rec.snapshot()
@@ -226,7 +230,7 @@ func TestVerifMasks(t *testing.T) {
 				sum["dataFailed"]++
 			}
 		}
-		if !r.Completed || !r.DataOK || r.Lab != "" || cases[r.Case].Events {
+		if !r.Completed || !r.DataOK || r.Lab != "" || cases[r.Case].Events || r.Sess != nil {
 			_ = enc.Encode(r)
 		}
 	}
